@@ -11,8 +11,21 @@ WITHOUT importing them and regenerates lean/Generated/CliMain.lean:
     ((false, literal text) | (true, source of the replacement field));
   * `entryPoint`: how `pypyr/__main__.py` turns main's return value into the exit status.
 
+  * `errorTail`: the statements of the `Exception` handler after those writes, one string per
+    statement with its nesting depth (`"0:if parsed_args.log_level"`, …): the guard of the traceback.
+
+and lean/Generated/CliOptions.lean from `get_parser` / `get_args`:
+
+  * `parserKwargs`: the keyword arguments of `argparse.ArgumentParser(…)` other than `description` /
+    `formatter_class` / `prog` / `epilog` / `usage` (source text) - `allow_abbrev` is among them;
+  * `arguments`: one row per `parser.add_argument(…)` in source order: option strings, dest, and the
+    source text of `nargs`, `type`, `default`, `action` ("-" when absent), names of any other keyword
+    (anything but `help` / `version`);
+  * `otherStatements`: statements of `get_parser` that are neither the constructor assignment, nor an
+    `add_argument` call, nor `return parser`; `getArgs`: the expression `get_args` returns.
+
 `Props/C18.lean` proves (`decide +kernel`) that these equal what `PypyrModel/Cli.lean` assumes
-(`mainShape`, `mainHandlers`, `mainStderrWrites`), so moving a call out of the `try`, reordering or
+(`mainShape`, `mainHandlers`, `mainStderrWrites`, `mainTracebackGuard`, `parserRows`), so moving a call out of the `try`, reordering or
 narrowing a handler, or changing what is written breaks a proof obligation before any generated
 input reaches it. A source that no longer has the expected overall shape raises `Shape`
 (-> "extractor failed" proof problem). The file is rewritten only when it changes.
@@ -128,6 +141,25 @@ def handler_result(h):
     return '<falls-through>'
 
 
+def flat_stmts(stmts, depth):
+    """One string per statement, prefixed with its nesting depth; compound statements by their header."""
+    out = []
+    for st in stmts:
+        if isinstance(st, ast.If):
+            out.append(f'{depth}:if {ast.unparse(st.test)}')
+            out += flat_stmts(st.body, depth + 1)
+            if st.orelse:
+                out.append(f'{depth}:else')
+                out += flat_stmts(st.orelse, depth + 1)
+        elif isinstance(st, (ast.For, ast.While, ast.With, ast.Try)):
+            out.append(f'{depth}:{ast.unparse(st).splitlines()[0]}')
+            for field in ('body', 'orelse', 'finalbody'):
+                out += flat_stmts(getattr(st, field, []) or [], depth + 1)
+        else:
+            out.append(f'{depth}:{ast.unparse(st)}')
+    return out
+
+
 def find_main(tree):
     for n in tree.body:
         if isinstance(n, ast.FunctionDef) and n.name == 'main':
@@ -155,6 +187,7 @@ def describe(repo: Path):
     err_w = leading_writes(err_h[0], 'stderr') if err_h else []
     ki_w = leading_writes(ki_h[0], 'stdout') if ki_h else []
     err_name = err_h[0].name if err_h else None
+    err_tail = flat_stmts(err_h[0].body[len(err_w):], 0) if err_h else []
     # what else may main return: a `return` outside the handlers changes the exit status of a completed run
     plain_returns = [ast.unparse(n.value) if n.value is not None else 'None'
                      for s in body[:k] + t.body + t.orelse + t.finalbody + body[k + 1:]
@@ -169,7 +202,7 @@ def describe(repo: Path):
         if isinstance(n, ast.If) and ast.unparse(n.test) == "__name__ == '__main__'":
             entry += [ast.unparse(s) for s in n.body]
     return {'calls': calls, 'handlers': handlers, 'err_writes': err_w, 'ki_writes': ki_w, 'err_name': err_name,
-            'plain_returns': plain_returns, 'entry': entry}
+            'err_tail': err_tail, 'plain_returns': plain_returns, 'entry': entry}
 
 
 def lean_pieces(ws):
@@ -196,6 +229,9 @@ def render(repo: Path) -> str:
         '/-- Leading `sys.stderr.write(…)` arguments of the `Exception` handler, as f-string pieces. -/',
         'def errorWrites : List (List (Bool × String)) :=\n  ' + lean_pieces(d['err_writes']),
         '',
+        '/-- The rest of the `Exception` handler, one string per statement: "<depth>:<source>". -/',
+        'def errorTail : List String := [' + ', '.join(lean_str(x) for x in d['err_tail']) + ']',
+        '',
         '/-- Leading `sys.stdout.write(…)` arguments of the `KeyboardInterrupt` handler. -/',
         'def interruptWrites : List (List (Bool × String)) :=\n  ' + lean_pieces(d['ki_writes']),
         '',
@@ -210,12 +246,112 @@ def render(repo: Path) -> str:
     return '\n'.join(lines)
 
 
-def generate(repo, target):
-    repo, target = Path(repo), Path(target)
-    text = render(repo)
+def find_fn(tree, name):
+    for n in tree.body:
+        if isinstance(n, ast.FunctionDef) and n.name == name:
+            return n
+    raise Shape(f'pypyr.cli.{name} not found')
+
+
+IGNORED_PARSER_KW = {'description', 'formatter_class', 'prog', 'epilog', 'usage'}
+ROW_KW = ('dest', 'nargs', 'type', 'default', 'action')
+IGNORED_ARG_KW = {'help', 'version'}
+
+
+def describe_parser(repo: Path):
+    """The argparse definition in `get_parser` as data (ast only)."""
+    tree = ast.parse((repo / 'pypyr' / 'cli.py').read_text())
+    fn = find_fn(tree, 'get_parser')
+    body = [s for s in fn.body
+            if not (isinstance(s, ast.Expr) and isinstance(s.value, ast.Constant) and isinstance(s.value.value, str))]
+    var, kwargs, rows, other = None, [], [], []
+    for st in body:
+        if (isinstance(st, ast.Assign) and len(st.targets) == 1 and isinstance(st.targets[0], ast.Name)
+                and isinstance(st.value, ast.Call) and dotted(st.value.func) in ('argparse.ArgumentParser', 'ArgumentParser')
+                and var is None):
+            var = st.targets[0].id
+            if st.value.args:
+                other.append('positional arguments to ArgumentParser: ' + ast.unparse(st.value))
+            kwargs = [(k.arg or '**', ast.unparse(k.value)) for k in st.value.keywords if k.arg not in IGNORED_PARSER_KW]
+        elif (isinstance(st, ast.Expr) and isinstance(st.value, ast.Call) and var is not None
+              and dotted(st.value.func) == f'{var}.add_argument'):
+            call = st.value
+            names = []
+            for a in call.args:
+                if isinstance(a, ast.Constant) and isinstance(a.value, str):
+                    names.append(a.value)
+                else:
+                    names.append('<' + ast.unparse(a) + '>')
+            kw = {k.arg or '**': ast.unparse(k.value) for k in call.keywords}
+            opts = [n for n in names if n.startswith('-')]
+            plain = [n for n in names if not n.startswith('-')]
+            dest = kw.get('dest')
+            if dest is not None:
+                try:
+                    dest = ast.literal_eval(dest)
+                except Exception:
+                    pass
+            elif plain:
+                dest = plain[0]
+            else:
+                dest = '-'
+            if plain and 'dest' in kw:
+                other.append('add_argument with a positional name and dest: ' + ast.unparse(call))
+            rows.append({'options': opts, 'dest': str(dest),
+                         **{k: kw.get(k, '-') for k in ROW_KW if k != 'dest'},
+                         'other': sorted(k for k in kw if k not in ROW_KW and k not in IGNORED_ARG_KW)})
+        elif isinstance(st, ast.Return) and var is not None and isinstance(st.value, ast.Name) and st.value.id == var:
+            continue
+        else:
+            other.append(ast.unparse(st).splitlines()[0])
+    ga = find_fn(tree, 'get_args')
+    rets = [ast.unparse(n.value) if n.value is not None else 'None' for n in ast.walk(ga) if isinstance(n, ast.Return)]
+    return {'kwargs': kwargs, 'rows': rows, 'other': other, 'get_args': rets}
+
+
+def render_options(repo: Path) -> str:
+    d = describe_parser(repo)
+
+    def row(r):
+        return ('([' + ', '.join(lean_str(o) for o in r['options']) + '], ' + lean_str(r['dest']) + ', ' +
+                ', '.join(lean_str(r[k]) for k in ('nargs', 'type', 'default', 'action')) + ', [' +
+                ', '.join(lean_str(o) for o in r['other']) + '])')
+    lines = [
+        '/- GENERATED by harness/extract_c18.py from pypyr/cli.py (get_parser, get_args) — do not edit. -/',
+        'namespace Pypyr.Generated.CliOptions',
+        '',
+        '/-- Keyword arguments of `argparse.ArgumentParser(…)` that change parsing: (name, source text). -/',
+        'def parserKwargs : List (String × String) := [' + ', '.join(
+            f'({lean_str(k)}, {lean_str(v)})' for k, v in d['kwargs']) + ']',
+        '',
+        '/-- One row per `add_argument`, source order: option strings, dest, nargs, type, default, action',
+        '    (source text, "-" when absent), other keywords given. -/',
+        'def arguments : List (List String × String × String × String × String × String × List String) :=\n  [' +
+        ',\n   '.join(row(r) for r in d['rows']) + ']',
+        '',
+        '/-- Statements of `get_parser` other than the constructor, `add_argument` calls and `return parser`. -/',
+        'def otherStatements : List String := [' + ', '.join(lean_str(x) for x in d['other']) + ']',
+        '',
+        '/-- What `get_args(args)` returns. -/',
+        'def getArgs : List String := [' + ', '.join(lean_str(x) for x in d['get_args']) + ']',
+        '',
+        'end Pypyr.Generated.CliOptions',
+        '']
+    return '\n'.join(lines)
+
+
+def _write(target, text):
     target.parent.mkdir(parents=True, exist_ok=True)
     if not target.exists() or target.read_text() != text:
         target.write_text(text)
+
+
+def generate(repo, target):
+    """Writes `target` (Generated/CliMain.lean) and, next to it, CliOptions.lean."""
+    repo, target = Path(repo), Path(target)
+    text = render(repo)
+    _write(target, text)
+    _write(target.parent / 'CliOptions.lean', render_options(repo))
     return text
 
 
@@ -260,4 +396,5 @@ if __name__ == '__main__':
     import sys
     r = Path(sys.argv[1] if len(sys.argv) > 1 else '/repo')
     print(render(r))
+    print(render_options(r))
     print(injectable_lines(r))
